@@ -55,6 +55,11 @@ type propSpec struct {
 	// hang/deadlock"; a watchdog kill is then reported through the
 	// harness's own stall detector, never through this flag alone.
 	NeedInstr bool // needs the instrumented unix_volume.go
+	// RaceDeciding: path substrings of the sources whose race-freedom the
+	// property's statement covers. A race-detector report with an access
+	// stack containing one of them is a violation "race:<site key>"; all
+	// other reports stay counted, not judged.
+	RaceDeciding []string
 }
 
 func main() {
@@ -470,6 +475,10 @@ func runChild(p propSpec, pk pkgSpec, tier string, seed uint64, k, n int, outDir
 				for s, v := range sites {
 					oc.raceSites[s] += v
 				}
+				for _, v := range decidingRaces(string(b), p.RaceDeciding) {
+					v.Pkg, v.Run = pk.Dir, runRe
+					oc.crashes = append(oc.crashes, v)
+				}
 			}
 		}
 		// collect results
@@ -631,6 +640,61 @@ func parseRaces(s string) (int, map[string]int) {
 		sites[strings.Join(tops, " <-> ")]++
 	}
 	return n, sites
+}
+
+// decidingRaces turns the race reports of one log whose two access stacks
+// (not the "Goroutine N created at" stacks) contain a frame in one of the
+// deciding sources into violations "race:<funcA> <-> <funcB>": like the site
+// key of parseRaces, but naming the innermost function outside the Go runtime
+// with its receiver. A report that only involves harness files (zz_verif_*)
+// never matches: harness frames are not looked at, and the deciding
+// substrings name repository sources.
+func decidingRaces(s string, deciding []string) []violation {
+	if len(deciding) == 0 {
+		return nil
+	}
+	var out []violation
+	for _, b := range strings.Split(s, "WARNING: DATA RACE")[1:] {
+		if i := strings.Index(b, "\n=================="); i >= 0 {
+			b = b[:i]
+		}
+		access := b
+		if i := strings.Index(access, "\nGoroutine "); i >= 0 {
+			access = access[:i]
+		}
+		hit := false
+		var tops []string
+		for _, stack := range strings.Split(access, "\n\n") {
+			lines := strings.Split(stack, "\n")
+			top := ""
+			for i := 0; i+1 < len(lines); i++ {
+				fn, pos := strings.TrimSpace(lines[i]), strings.TrimSpace(lines[i+1])
+				if !strings.HasSuffix(fn, "()") || !strings.HasPrefix(pos, "/") {
+					continue
+				}
+				if top == "" && !strings.HasPrefix(fn, "runtime.") {
+					top = strings.TrimSuffix(fn[strings.LastIndex(fn, "/")+1:], "()")
+				}
+				if strings.Contains(pos, "zz_verif_") {
+					continue // harness frame
+				}
+				for _, d := range deciding {
+					if strings.Contains(pos, d) {
+						hit = true
+					}
+				}
+			}
+			if top != "" {
+				tops = append(tops, top)
+			}
+		}
+		if !hit {
+			continue
+		}
+		sort.Strings(tops)
+		out = append(out, violation{Sig: "race:" + strings.Join(tops, " <-> "), Detail: "WARNING: DATA RACE" + b, Stream: "race-detector", Case: -1})
+	}
+	return out
 }
 
 // ---------------------------------------------------------------- run
